@@ -32,6 +32,7 @@ def dims(base):
         "wit0": [[72, 33], [], [1], [253]], "witrest": [[1], [], [2, 0]],
         "version": [1, 2, 2 ** 32 - 1, 0, 2 ** 31], "locktime": [0, 499999999, 2 ** 32 - 1, 1],
         "prevout0": ["normal", "null"],
+        "spk0kind": ["filler", "pubkey33", "pubkey65", "p2pkh-text", "p2sh-text", "bech32-text", "bech32m-text"],
     }
     if base == "segwit":
         d["segwit"] = [True, False]
@@ -80,6 +81,26 @@ def chk_ids(case):
         out.append((f"C04/raw/{kind}/{tcls}", f"raw is {len(dd.get('raw', '')) // 2}B, transaction is {len(raw)}B (trailing {case.get('tname')})"))
     if left != tr:
         out.append((f"C04/leftover/{kind}/{tcls}", f"leftover {len(left)}B != trailing {len(tr)}B ({case.get('tname')})"))
+    if not out and not tr:
+        # aliasing: edit the returned structure in place, parse the same bytes again - the ids are those of the bytes
+        try:
+            for i in dd.get("txins", []):
+                i["sequence"] = "00000000"
+                i["txid"] = "00" * 32
+                i["scriptsig"] = ""
+            for o in dd.get("txouts", []):
+                o["value"] = 0
+                o["scriptpubkey"] = ""
+            if isinstance(dd.get("witnesses"), list):
+                dd["witnesses"].clear()
+            dd["version"] = 77
+        except Exception:
+            pass
+        d2 = call(btx.tx_deser, raw, include_raw=True)
+        if d2[0] != "ok" or d2[1][0].get("txid") != T.txid().hex() or d2[1][0].get("wtxid") != T.wtxid().hex() \
+                or d2[1][0].get("raw") != raw.hex():
+            out.append((f"C04/aliased/{kind}", "after the caller edited the dict returned by the first tx_deser, parsing the same bytes "
+                        f"again gives different ids: {str(d2)[:120]}"))
     return out
 
 
